@@ -1,0 +1,6 @@
+//go:build !verif
+
+package fs
+
+// verifSkipFuseC15 is a verification hook point of property C15; without the build tag "verif" it does nothing.
+func verifSkipFuseC15(string) bool { return false }
